@@ -1184,6 +1184,36 @@ def _random_step(rng, world, locals_, n_full, rec):
     return None
 
 
+def _many_orphans_case(env):
+    """more objects waiting for an unknown parent than any small scenario has: 130 children, each naming a parent of its own that
+    is announced only afterwards - every one of them is adopted when its parent appears. Returns a Failure or None."""
+    world = World(env, {"allow_auto": False, "auto_missing": False, "vo_cache": False, "cache": {}})
+    try:
+        n = 130
+        for i in range(n):
+            raised = world._deliver(world._msg_update("full", 0, ((1000 + i, 10_000 + i, 5000 + i),), 1), 0)
+            if raised is not None:
+                return Failure("handler-raised", "no handler raises", "announcing child %d of %d raised %r" % (i, n, raised))
+        for i in range(n):
+            raised = world._deliver(world._msg_update("full", 0, ((5000 + i, 20_000 + i, 0),), 1), 0)
+            if raised is not None:
+                return Failure("handler-raised", "no handler raises", "announcing parent %d of %d raised %r" % (i, n, raised))
+        state = world.regions[0].objects.state
+        for i in range(n):
+            child, parent = state.localid_lookup.get(1000 + i), state.localid_lookup.get(5000 + i)
+            if child is None or parent is None:
+                return Failure("index/live-set", "every announced object is tracked", "child %d / parent %d missing" % (1000 + i, 5000 + i))
+            if child.Parent is None or child.Parent.LocalID != 5000 + i or list(parent.ChildIDs) != [1000 + i]:
+                return Failure("orphans/adoption", "objects with an unknown parent are held as orphans and adopted when the parent appears",
+                               "with %d parents outstanding at once: child %d names parent %d, its Parent link is %s, the parent's ChildIDs are %s"
+                               % (n, 1000 + i, 5000 + i, "None" if child.Parent is None else child.Parent.LocalID, list(parent.ChildIDs)))
+        if any(v for v in state._orphans.values()):
+            return Failure("orphans", "the orphan lists are empty once every parent has appeared", "left over: %s" % dict(state._orphans))
+    finally:
+        world.close()
+    return None
+
+
 def bounded_random_walks(reg, tier, seed):
     rng = random.Random(seed * 104729 + 1414)
     env = Env()
@@ -1221,6 +1251,15 @@ def bounded_random_walks(reg, tier, seed):
                     samples.append([describe(s) for s in world.steps[:8]])
             finally:
                 world.close()
+        executed += 260
+        distinct.add(("many-orphans",))
+        try:
+            f_ = _many_orphans_case(env)
+        except Exception as ex:  # noqa
+            f_ = Failure("harness/many-orphans", "scenario runs", "%s: %s" % (type(ex).__name__, ex))
+        if f_ is not None:
+            rec.failures.append({"key": f_.key, "clause": f_.clause, "input": {"scenario": "130 children, each with an unknown parent of its own, then the parents"},
+                                 "observed": f_.observed})
     finally:
         env.close()
     return {"name": "scene-graph-random-walks", "evaluations": executed, "distinct_nontrivial": len(distinct),
